@@ -30,15 +30,21 @@ private:
   T_PointerType get_unused_index(T_PointerType max_ptr_val)
   {
     const auto max_val = (T_PointerTypeUnsigned)max_ptr_val;
-    for (T_PointerTypeUnsigned i = counter; i <= max_val; i++) {
+    // Note max_val may be the largest value of the type: "i <= max_val" is then
+    // always true and i + 1 wraps to 0, so test before incrementing and keep
+    // the cursor in [1, max_val]
+    for (T_PointerTypeUnsigned i = counter; i >= 1 && i <= max_val; i++) {
       if (pointer_map.find(i) == pointer_map.end()) {
-        counter = i + 1;
+        counter = (i == max_val) ? 1 : i + 1;
         return (T_PointerType)i;
       }
+      if (i == max_val) {
+        break;
+      }
     }
-    for (T_PointerTypeUnsigned i = 1; i < counter; i++) {
+    for (T_PointerTypeUnsigned i = 1; i < counter && i <= max_val; i++) {
       if (pointer_map.find(i) == pointer_map.end()) {
-        counter = i + 1;
+        counter = (i == max_val) ? 1 : i + 1;
         return (T_PointerType)i;
       }
     }
